@@ -136,6 +136,9 @@ func findCounterexample(p *Program, o *Obl) ceResult {
 		res.report["counterexample"] = "not attempted (no parameters / lemma)"
 		return res
 	}
+	if e.TopC != nil && len(e.TopC.Probes) > 0 {
+		return probeCounterexample(p, o)
+	}
 	// value probes
 	type probe struct {
 		label string
@@ -438,15 +441,19 @@ func goStringLit(bs []byte) string {
 // runReplay injects an in-package test through -overlay and runs it.
 // It returns true when the test FAILS with the VERIF-REPLAY-FAIL marker.
 func runReplay(p *Program, e *Enc, tmpl string, lits map[string]string) (bool, string) {
+	return runReplayWith(p, e, tmpl, lits, "P")
+}
+
+func runReplayWith(p *Program, e *Enc, tmpl string, lits map[string]string, tag string) (bool, string) {
 	data, err := os.ReadFile(filepath.Join(verifDir, "replay", tmpl+".go.tmpl"))
 	if err != nil {
 		return false, "replay template missing: " + err.Error()
 	}
 	src := string(data)
 	for k, v := range lits {
-		src = strings.ReplaceAll(src, "{{P:"+k+"}}", v)
+		src = strings.ReplaceAll(src, "{{"+tag+":"+k+"}}", v)
 	}
-	if strings.Contains(src, "{{P:") {
+	if strings.Contains(src, "{{"+tag+":") {
 		return false, "replay template has unfilled parameters"
 	}
 	pkgDir := ""
@@ -472,4 +479,125 @@ func runReplay(p *Program, e *Enc, tmpl string, lits map[string]string) (bool, s
 	cmd.Run()
 	s := out.String()
 	return strings.Contains(s, "VERIF-REPLAY-FAIL"), s
+}
+
+
+// probeCounterexample: the contract names the values (probes) from which the
+// replay template builds concrete heap objects.
+func probeCounterexample(p *Program, o *Obl) (res ceResult) {
+	res = ceResult{report: map[string]interface{}{}}
+	e := o.Enc
+	f := e.topFrame
+	type probe struct {
+		label string
+		t     *Term
+	}
+	var probes []probe
+	func() {
+		defer func() {
+			if r := recover(); r != nil {
+				res.report["counterexample"] = fmt.Sprint("probe evaluation failed: ", r)
+				probes = nil
+			}
+		}()
+		env := &Env{F: f, State: f.entryState, Old: f.entryState, Fn: f.Fn}
+		for _, cl := range e.TopC.Probes {
+			v := f.evalC(cl.E, env)
+			if v.K != VScalar {
+				panic("probe " + cl.Label + " is not scalar")
+			}
+			probes = append(probes, probe{cl.Label, v.X})
+		}
+	}()
+	if len(probes) == 0 {
+		return res
+	}
+	if hasQuant(o.Goal) {
+		res.report["counterexample"] = "not attempted: quantified goal"
+		return res
+	}
+	var b strings.Builder
+	b.WriteString("(set-option :produce-models true)\n(set-logic ALL)\n")
+	for _, lib := range e.P.Spec.preludeOrder(e.Uses) {
+		b.WriteString(preludeNoAxioms(e.P.Spec.LibText[lib]))
+	}
+	for _, d := range e.funDecls {
+		b.WriteString(d + "\n")
+	}
+	for _, n := range e.declOrder {
+		fmt.Fprintf(&b, "(declare-const %s %s)\n", quoteSym(n), e.decls[n])
+	}
+	// probe terms may mention entry variables not declared yet
+	seen := map[string]bool{}
+	for _, pr := range probes {
+		vs := map[string]*Sort{}
+		pr.t.Vars(vs)
+		for n, srt := range vs {
+			if _, ok := e.decls[n]; !ok && !seen[n] && strings.HasPrefix(n, "H0$") {
+				seen[n] = true
+				fmt.Fprintf(&b, "(declare-const %s %s)\n", quoteSym(n), srt)
+			}
+		}
+	}
+	for _, fct := range e.facts {
+		if fct.Ord >= o.Ord {
+			continue
+		}
+		if !hasQuant(fct.T) {
+			b.WriteString(factText(fct) + "\n")
+			continue
+		}
+		for _, inst := range instantiate(fct.T) {
+			b.WriteString(factText(&Fact{Guard: fct.Guard, T: inst}) + "\n")
+		}
+	}
+	b.WriteString("(assert " + o.Guard.String() + ")\n(assert (not " + o.Goal.String() + "))\n(check-sat)\n(get-value (")
+	for _, pr := range probes {
+		b.WriteString(pr.t.String() + " ")
+	}
+	b.WriteString("))\n")
+	dir, _ := os.MkdirTemp("", "vcgo-ce-")
+	defer os.RemoveAll(dir)
+	qf := filepath.Join(dir, "ce.smt2")
+	os.WriteFile(qf, []byte(b.String()), 0o644)
+	out := ""
+	for _, s := range []string{"z3-new", "z3"} {
+		ctx, cancel := context.WithTimeout(context.Background(), 25*time.Second)
+		o2, _ := runSolver(ctx, []string{s, "-T:20", qf})
+		cancel()
+		if strings.HasPrefix(strings.TrimSpace(o2), "sat") {
+			out = o2
+			res.report["model_solver"] = s + " (quantifier-free relaxation)"
+			break
+		}
+	}
+	if out == "" {
+		res.report["counterexample"] = "the quantifier-free relaxation has no model within 20 s"
+		return res
+	}
+	vals := parseGetValue(out, len(probes))
+	if vals == nil {
+		res.report["counterexample"] = "model could not be parsed"
+		res.report["raw_model"] = trimTo(out, 3000)
+		return res
+	}
+	lits := map[string]string{}
+	for i, pr := range probes {
+		lits[pr.label] = vals[i]
+	}
+	res.report["model"] = lits
+	tmpl := e.TopC.Opts["replay"]
+	if tmpl == "" {
+		res.report["replay"] = "no replay template registered for this function"
+		return res
+	}
+	ok, log := runReplayWith(p, e, tmpl, lits, "V")
+	res.report["replay_log"] = trimTo(log, 4000)
+	res.confirmed = ok
+	if ok {
+		res.report["replay"] = "FAILED on the real code: violation confirmed"
+	} else {
+		res.report["replay"] = "the model did not fail on the real code (spurious model of the relaxation, or the obligation is an inductive step)"
+	}
+	return res
 }
